@@ -16,16 +16,17 @@ CONSTANT Aspects                 \* which observations this validation gates on 
                                  \*   "recv"    the definition received the caller's objects (C01/C11)
 VARIABLE l,                      \* next line of the trace
          lay,                    \* per policy: the memory layout recorded after the last update (C04)
-         nodes                   \* per policy: spec class each node of the harness's C++ chain stands for
-tvars == <<vars, l, lay, nodes>>
+         nodes,                  \* per policy: spec class each node of the harness's C++ chain stands for
+         soff                    \* per policy: static offsets compiled into the program, per method (C12)
+tvars == <<vars, l, lay, nodes, soff>>
 
 Tr == ndJsonDeserialize(IOEnv.TRACE)
 Ev == Tr[l]
 IsEvent(k) == l <= Len(Tr) /\ Tr[l].e = k /\ l' = l + 1
-KeepLay == UNCHANGED <<lay, nodes>>
+KeepLay == UNCHANGED <<lay, nodes, soff>>
 
 NoLayout == [size |-> 0, vptr |-> <<>>, ms |-> <<>>, dt |-> <<>>]
-TInit == Init /\ l = 1 /\ lay = [p \in Policy |-> NoLayout] /\ nodes = [p \in Policy |-> <<0, 0, 0, 0>>]
+TInit == Init /\ l = 1 /\ lay = [p \in Policy |-> NoLayout] /\ nodes = [p \in Policy |-> <<0, 0, 0, 0>>] /\ soff = [p \in Policy |-> <<>>]
 
 (* several executions are concatenated in one file, separated by reset *)
 TReset ==
@@ -35,7 +36,7 @@ TReset ==
     /\ defs' = [p \in Policy |-> <<>>] /\ inst' = [p \in Policy |-> NotInstalled]
     /\ fresh' = [p \in Policy |-> FALSE] /\ handler' = [p \in Policy |-> "throw"]
     /\ vps' = <<>> /\ dead' = FALSE /\ obs' = [k |-> "init"]
-    /\ lay' = [p \in Policy |-> NoLayout] /\ nodes' = [p \in Policy |-> <<0, 0, 0, 0>>]
+    /\ lay' = [p \in Policy |-> NoLayout] /\ nodes' = [p \in Policy |-> <<0, 0, 0, 0>>] /\ soff' = [p \in Policy |-> <<>>]
 
 TClass    == IsEvent("class")    /\ KeepLay /\ RegisterClass(Ev.p, [r |-> Ev.r, c |-> Ev.c, bases |-> Ev.bases, abs |-> Ev.abs])
 TUnclass  == IsEvent("unclass")  /\ KeepLay /\ UnregisterClass(Ev.p, Ev.r)
@@ -48,6 +49,7 @@ THandler  == IsEvent("handler")  /\ KeepLay /\ SetHandler(Ev.p, Ev.kind)
 TUpdate ==
     /\ IsEvent("update")
     /\ lay' = [lay EXCEPT ![Ev.p] = NoLayout] /\ UNCHANGED nodes
+    /\ soff' = [soff EXCEPT ![Ev.p] = <<>>]          \* whatever was loaded is stale after an update
     /\ \/ Ev.res = "ok"       /\ IF "report" \in Aspects
                                   THEN UpdateOK(Ev.p, Ev.rep) /\ Ev.rep.cells = Ev.rep.built
                                   ELSE UpdateOKAnyReport(Ev.p)
@@ -59,12 +61,26 @@ TUpdate ==
 RowSet(rows) == {rows[i][1] : i \in DOMAIN rows}
 AllTuples(p, m) == LegalTuples(inst[p].anc, inst[p].cls, inst[p].mvp[m])
 
+Lookup(seq, k) == seq[CHOOSE i \in DOMAIN seq : seq[i][1] = k]
+HasKey(seq, k) == \E i \in DOMAIN seq : seq[i][1] = k
+CellOf(L, c, m, i) == Lookup(L.vptr, c)[2] + Lookup(L.ms, m)[2][i]
+(* C12: a method compiled with generated static offsets dispatches exactly like one reading them  *)
+(* at run time when the offsets are the installed ones; any other offsets are rejected by the       *)
+(* checked policies on every call that uses them: wrong slot -> static slot error (-4), wrong        *)
+(* stride -> static stride error (-5).                                                            *)
+Installed(p, m) == LET e == Lookup(lay[p].ms, m) IN [slots |-> e[2], strides |-> e[3]]
+HasStatic(p, m) == m \in DOMAIN soff[p]
+StaticOK(p, m) == HasStatic(p, m) => (lay[p].size > 0 /\ soff[p][m] = Installed(p, m))
+StaticErr(p, m) == IF soff[p][m].slots # Installed(p, m).slots THEN -4 ELSE -5
+ExpectedOutcome(p, m, t) == IF StaticOK(p, m) THEN CallOutcome(p, m, t) ELSE StaticErr(p, m)
+
 TTable ==
     /\ KeepLay
     /\ IsEvent("table")
     /\ ~dead /\ fresh[Ev.p] /\ inst[Ev.p].ok /\ Ev.m \in DOMAIN inst[Ev.p].mvp
+    /\ HasStatic(Ev.p, Ev.m) => lay[Ev.p].size > 0
     /\ RowSet(Ev.rows) = AllTuples(Ev.p, Ev.m)
-    /\ \A i \in DOMAIN Ev.rows : Ev.rows[i][2] = CallOutcome(Ev.p, Ev.m, Ev.rows[i][1])
+    /\ \A i \in DOMAIN Ev.rows : Ev.rows[i][2] = ExpectedOutcome(Ev.p, Ev.m, Ev.rows[i][1])
     /\ obs' = [k |-> "table"]
     /\ UNCHANGED <<classes, methods, defs, inst, fresh, handler, vps, dead>>
 
@@ -72,9 +88,9 @@ TTable ==
 (* objects the definition received, or [status, arity, types] as given to   *)
 (* the error handler (which threw).                                        *)
 CRowOK(p, m, row) ==
-    LET o == CallOutcome(p, m, row[1]) IN
+    LET o == ExpectedOutcome(p, m, row[1]) IN
     /\ row[2] = o
-    /\ IF o >= 0 THEN ("recv" \in Aspects => row[3] = row[1])
+    /\ IF o < -3 THEN TRUE ELSE IF o >= 0 THEN ("recv" \in Aspects => row[3] = row[1])
        ELSE LET rec == ErrorRecord(p, m, row[1], o) IN
             "errrec" \in Aspects => row[3] = <<rec.status, rec.arity, rec.types>>
 
@@ -88,9 +104,6 @@ TCTable ==
     /\ obs' = [k |-> "table"]
     /\ UNCHANGED <<classes, methods, defs, inst, fresh, handler, vps, dead>>
 
-Lookup(seq, k) == seq[CHOOSE i \in DOMAIN seq : seq[i][1] = k]
-HasKey(seq, k) == \E i \in DOMAIN seq : seq[i][1] = k
-CellOf(L, c, m, i) == Lookup(L.vptr, c)[2] + Lookup(L.ms, m)[2][i]
 Kind(reads, k) == SelectSeq(reads, LAMBDA r : r[1] = k)
 TResolve ==
     /\ KeepLay
@@ -128,10 +141,37 @@ TDied ==
     /\ obs' = [k |-> "died"]
     /\ UNCHANGED <<classes, methods, defs, inst, fresh, handler, vps, dead>>
 
+(* ---- generated static offsets (C12) ---- *)
+(* what the real generator wrote: for every declared method, position by position the slots and     *)
+(* strides update installed (recorded by the preceding layout event)                               *)
+TOffsets ==
+    /\ IsEvent("offsets") /\ KeepLay
+    /\ ~dead /\ fresh[Ev.p] /\ inst[Ev.p].ok /\ lay[Ev.p].size > 0
+    /\ ~Ev.illformed
+    /\ {Ev.rows[i][1] : i \in DOMAIN Ev.rows} = DOMAIN inst[Ev.p].mvp
+    /\ Len(Ev.rows) = Cardinality(DOMAIN inst[Ev.p].mvp)
+    /\ \A i \in DOMAIN Ev.rows :
+          LET inst_ == Installed(Ev.p, Ev.rows[i][1]) IN
+          Ev.rows[i][2] = inst_.slots /\ Ev.rows[i][3] = inst_.strides
+    /\ UNCHANGED vars
+(* the program is "compiled" with these offsets for method m *)
+TSLoad ==
+    /\ IsEvent("sload") /\ UNCHANGED <<lay, nodes>>
+    /\ ~dead /\ fresh[Ev.p] /\ inst[Ev.p].ok /\ Ev.m \in DOMAIN inst[Ev.p].mvp
+    /\ Ev.exact \/ Ev.chk              \* other offsets are only tried under a checked policy
+    /\ soff' = [soff EXCEPT ![Ev.p] = [x \in DOMAIN soff[Ev.p] \cup {Ev.m} |->
+                    IF x = Ev.m THEN [slots |-> Ev.slots, strides |-> Ev.strides] ELSE soff[Ev.p][x]]]
+    /\ UNCHANGED vars
+(* the harness did not call a static-offset method whose offsets are not loaded *)
+TSSkip ==
+    /\ IsEvent("sskip") /\ KeepLay
+    /\ ~HasStatic(Ev.p, Ev.m)
+    /\ UNCHANGED vars
+
 (* ---- virtual_ptr handles (C09, C15) ---- *)
 NodeClass(p, k) == nodes[p][k + 1]
 TNode ==
-    /\ IsEvent("node") /\ UNCHANGED lay
+    /\ IsEvent("node") /\ UNCHANGED <<lay, soff>>
     /\ Ev.ok
     /\ nodes' = [nodes EXCEPT ![Ev.p][Ev.k + 1] = Ev.c]
     /\ UNCHANGED vars
@@ -213,7 +253,7 @@ TLayout ==
     /\ IsEvent("layout")
     /\ ~dead /\ fresh[Ev.p] /\ inst[Ev.p].ok
     /\ LayoutOK(Ev.p, Ev)
-    /\ lay' = [lay EXCEPT ![Ev.p] = [size |-> Ev.size, vptr |-> Ev.vptr, ms |-> Ev.ms, dt |-> Ev.dt]] /\ UNCHANGED nodes
+    /\ lay' = [lay EXCEPT ![Ev.p] = [size |-> Ev.size, vptr |-> Ev.vptr, ms |-> Ev.ms, dt |-> Ev.dt]] /\ UNCHANGED <<nodes, soff>>
     /\ obs' = [k |-> "layout"]
     /\ UNCHANGED <<classes, methods, defs, inst, fresh, handler, vps, dead>>
 
@@ -251,7 +291,7 @@ TNext ==
 
 TNextStep ==
     \/ TReset \/ TClass \/ TUnclass \/ TMethod \/ TUnmethod \/ TDef \/ TUndef \/ THandler
-    \/ TUpdate \/ TTable \/ TCTable \/ TResolve \/ TCall \/ TDied \/ TNext \/ TEnd \/ TLayout \/ TReads \/ TSkip \/ TNode \/ TVptr \/ TVDerive \/ TVDrop \/ TVGet \/ TVCall \/ TVSkip
+    \/ TUpdate \/ TTable \/ TCTable \/ TResolve \/ TCall \/ TDied \/ TNext \/ TEnd \/ TLayout \/ TReads \/ TSkip \/ TOffsets \/ TSLoad \/ TSSkip \/ TNode \/ TVptr \/ TVDerive \/ TVDrop \/ TVGet \/ TVCall \/ TVSkip
 
 TSpec == TInit /\ [][TNextStep]_tvars
 
